@@ -15,3 +15,5 @@ func verifShuffleStrings([]string) bool        { return false }
 func verifPick(idx, n int) int                 { return idx }
 func verifCoin(float64) (bool, bool)           { return false, false }
 func verifYield(string, peer.ID)               {}
+
+func verifPickPeer(map[peer.ID]EventType) (peer.ID, bool) { return "", false }
